@@ -902,6 +902,13 @@ func runLifeCase(c cfg, seed uint64, o lifeOpts, keys map[string]struct{}) (eval
 	case "accept-error":
 		// a non-retryable accept4 failure shuts the engine down by design; every open connection must still be closed
 		s.armAll()
+		nopen := int64(0)
+		for _, cs := range mon.snapshot() {
+			if atomic.LoadInt32(&cs.state) == 1 {
+				nopen++
+			}
+		}
+		res.Obs("accept_error_open_connections_at_fault|"+c.class(), nopen)
 		vsys.PlanAdd(&vsys.Rule{Call: vsys.CAccept, FD: -1, Index: 1, Action: vsys.AErrno, Errno: unix.EMFILE, Once: true})
 		if conn, err := dialPeerPre(life.dialNet, life.dialAddr, &s.preArmed); err == nil {
 			extra = append(extra, conn)
